@@ -52,13 +52,30 @@ var plusFeatureLabels = func() map[string]bool {
 	return m
 }()
 
+var plusContentLabels = func() []string {
+	var l []string
+	for _, c := range gen.PlusContents() {
+		l = append(l, c.Label)
+	}
+	return l
+}()
+
 func plusClass(labels []string) string {
 	var cls []string
 	for _, l := range labels {
 		if i := strings.Index(l, "plusPointer["); i >= 0 {
 			cls = append(cls, strings.TrimSuffix(l[i+len("plusPointer["):], "]"))
-		} else if plusFeatureLabels[l] {
+			continue
+		}
+		if plusFeatureLabels[l] {
 			cls = append(cls, l)
+			continue
+		}
+		for _, pc := range plusContentLabels {
+			if strings.HasSuffix(l, "<-"+pc) {
+				cls = append(cls, pc)
+				break
+			}
 		}
 	}
 	if len(cls) == 0 {
